@@ -607,6 +607,31 @@ def _env_of(b):
 
 
 
+def error_guard_polarity(bodies):
+    """(number of error exits, [exits taken when a value EQUALS a constant]) over the given bodies: the innermost `if` that decides an
+    `return Err(..)` / bail! must not be an equality with a literal or constant (that is the negation of a validation guard)"""
+    from . import census
+    n_err, bad = 0, []
+    for b in bodies:
+        def is_err_exit(y):
+            return y.get("k") == "ret" and y.get("e") is not None and ir.contains(y["e"], lambda z: z.get("k") == "call" and (z.get("q") or "").endswith(("Err::{Ctor#0}", "anyhow::Error::msg")))
+        for n, parents, _m in ir.walk(ir.fn_block(b)):
+            if not is_err_exit(n):
+                continue
+            n_err += 1
+            guard = None
+            for p_ in reversed(parents):
+                if p_.get("k") == "if":
+                    in_then = ir.contains(p_["then"], lambda z: z is n)
+                    guard = ir.cmp_norm(p_["c"], negate=not in_then)
+                    break
+            if guard is not None and guard[1] == "==":
+                other = [guard[0], guard[2]]
+                if any(census._const_of(o) is not None or (isinstance(o, str) and (o.startswith(("'", '"', "b'")) or o.isupper())) for o in other):
+                    bad.append("%s: error when `%s`" % (ir.loc(n), " ".join(map(str, guard))))
+    return n_err, bad
+
+
 def vt_types_rules(ck, P, rule="R-VT-TYPES"):
     """versatiles record helpers that every reader / writer path goes through:
        order    FileHeader::to_blob writes zoom_range[0], [1] and bbox[0..3] in index order; from_blob fills them in the same order;
